@@ -2,7 +2,7 @@
    ForkableHub).  Statements: Spec/C04_Disc_Spec.v; proofs: Proofs/Fk/DiscEvents.v, Proofs/C04_DiscProofs.v. *)
 From BV Require Import Base.Prelude Model.Block Model.ForkDB Model.Forkable Spec.Consumer Spec.Universe
   Spec.C01_Spec Spec.C01_Moving_Spec Spec.C01_Roots_Spec Spec.C04_Spec Spec.C04_Moving_Spec Spec.C04_Disc_Spec
-  Proofs.C04_DiscProofs.
+  Check.Fk_Check Check.Fk_Props_Check Proofs.C04_DiscProofs.
 Local Open Scope N_scope.
 
 (* partial: discovery mode with hold-until-LIB and includeInitialLIB off, histories of the class disc_scope2_b
@@ -12,6 +12,11 @@ Local Open Scope N_scope.
 Theorem c04_discovery_partial : c04_discovery_statement.
 Proof. exact c04_discovery_proved. Qed.
 Print Assumptions c04_discovery_partial.
+
+(* the same on the observations of the check: c04_full restricted to the discovery-mode cases c04_disc_thm_scope *)
+Theorem c04_discovery_observed_partial : c04_discovery_observed.
+Proof. exact c04_discovery_observed_proved. Qed.
+Print Assumptions c04_discovery_observed_partial.
 
 (* the monitor follows from the shape alone, whatever produced the trace *)
 Theorem c04_discovery_shape_accepted : forall firr h t, c04d_run firr [] h t -> c04_b firr LNone h t = true.
